@@ -472,6 +472,25 @@ where
     S::PC: PolynomialCommitment<SF, S::P, Proof = Vec<LinCodePCProof<SF, RoMT>>, VerifierKey = ark_poly_commit::linear_codes::LigeroPCParams<SF, RoMT, RoColHash>>,
     CommOf<S>: super::c08::LinCommParts,
 {
+    lincode_generic::<S>(cfg, which, univariate, false)
+}
+
+/// Brakedown: the same relation with the code of `bdref` (the paper's recursive encoder over the matrices in
+/// the verifier key), distance beta/r, security parameter and well-formedness flag read from the key.
+pub fn brakedown<S: Sch>(cfg: &Cfg, which: usize) -> Verdict
+where
+    S::PC: PolynomialCommitment<SF, S::P, Proof = Vec<LinCodePCProof<SF, RoMT>>, VerifierKey = ark_poly_commit::linear_codes::BrakedownPCParams<SF, RoMT, RoColHash>>,
+    CommOf<S>: super::c08::LinCommParts,
+{
+    lincode_generic::<S>(cfg, which, false, true)
+}
+
+fn lincode_generic<S: Sch>(cfg: &Cfg, which: usize, univariate: bool, bd: bool) -> Verdict
+where
+    S::PC: PolynomialCommitment<SF, S::P, Proof = Vec<LinCodePCProof<SF, RoMT>>>,
+    VkOf<S>: ark_serialize::CanonicalSerialize,
+    CommOf<S>: super::c08::LinCommParts,
+{
     use super::c08::LinCommParts;
     let mut w = match catch(|| build::<S>(cfg)) {
         Ok(Ok(w)) => w,
@@ -515,8 +534,28 @@ where
     }
     // reference relation
     let (n_rows, n_cols, n_ext, root) = w.comms[0].commitment().parts();
-    let (sec, rho_inv, wf_required) = cfg.sz.ligero;
-    let t = match ark_poly_commit::linear_codes::verif_hooks::calculate_t::<SF>(sec, (rho_inv - 1, rho_inv), n_ext) {
+    let (mut sec, rho_inv, mut wf_required) = cfg.sz.ligero;
+    let mut distance = (rho_inv - 1, rho_inv);
+    let bdp = if bd {
+        match super::bdref::mirror(&w.vk) {
+            Ok(p) => {
+                sec = p.sec_param;
+                wf_required = p.check_well_formedness;
+                distance = (p.beta.0 * p.rho_inv.1, p.beta.1 * p.rho_inv.0);
+                Some(p)
+            }
+            Err(e) => return Verdict::Discard(format!("driver: {}", e)),
+        }
+    } else {
+        None
+    };
+    let encode = |m: &[SF]| -> Vec<SF> {
+        match &bdp {
+            Some(p) => super::bdref::encode_ref(p, m, 0).unwrap_or_default(),
+            None => rs_encode(m, rho_inv),
+        }
+    };
+    let t = match ark_poly_commit::linear_codes::verif_hooks::calculate_t::<SF>(sec, distance, n_ext) {
         Ok(t) => t,
         Err(_) => return Verdict::Discard("calculate_t failed".into()),
     };
@@ -576,9 +615,10 @@ where
         (eq(&coords[..lc]), eq(&coords[lc..]))
     };
     if ok {
-        let wv = rs_encode(pv, rho_inv);
-        let wwf = wf.as_ref().filter(|_| wf_required).map(|v| rs_encode(v, rho_inv));
-        for j in 0..t {
+        let wv = encode(pv);
+        let wwf = wf.as_ref().filter(|_| wf_required).map(|v| encode(v));
+        ok &= wv.len() == n_ext && wwf.as_ref().map_or(true, |x| x.len() == n_ext);
+        for j in 0..if ok { t } else { 0 } {
             let q = indices[j];
             if paths[j].leaf_index != q {
                 ok = false;
